@@ -1,7 +1,7 @@
 // Native replay / witness driver for `http_serve::streaming_body` (see serve_witness.rs for the role of these files).
 // Scenario line: id|chunk_size|accept_encoding_hex or -|gzip_level|METHOD|op,op,...
 //   ops: W<hex> write, L<hex> write_all, F flush, P poll the body once (waker A), Q poll with a second waker B,
-//        D drain: poll (waker A) until Pending / end / error, at most 20000 frames -> d<hex of all data>:<frames>:<shortest frame>:<P|N|E>
+//        D drain: poll (waker A) until Pending / end / error, at most 400000 frames -> d<hex of all data>:<frames>:<shortest frame>:<P|N|E>
 //        A abort, X drop the writer, R drop the body, G call http_serve::should_gzip on the request headers (-> g0 / g1); `!a/b` after a result = wake-ups of A / B caused by that op
 // Observation: id|status|hdrs|op results, comma separated:
 //   W -> w<k> or we ; L -> lo / le ; F -> fo / fe ; P -> <lower>:<upper|->:<eos>>D<hex> | E | N | P ; A -> a ; X -> x ; R -> r
@@ -36,7 +36,8 @@ fn run_one(line: &str) -> String {
     let f: Vec<&str> = line.split('|').collect();
     let id = f[0];
     let chunk: usize = f[1].parse().unwrap();
-    let level: u32 = f[3].parse().unwrap();
+    // gzip level: `6`, or several successive with_gzip_level calls `0+6`
+    let levels: Vec<u32> = f[3].split('+').map(|x| x.parse().unwrap()).collect();
     let method = http::Method::from_bytes(f[4].as_bytes()).unwrap();
     let mut req = http::Request::builder().method(method).uri("/");
     if f[2] != "-" {
@@ -48,7 +49,13 @@ fn run_one(line: &str) -> String {
     let ops: Vec<String> = f[5].split(',').filter(|x| !x.is_empty()).map(|x| x.to_string()).collect();
     let r = std::panic::catch_unwind(std::panic::AssertUnwindSafe(move || {
         let (resp, w): (http::Response<http_serve::Body<bytes::Bytes, BoxError>>, Option<http_serve::BodyWriter<bytes::Bytes, BoxError>>) =
-            http_serve::streaming_body(&req).with_chunk_size(chunk).with_gzip_level(level).build();
+            {
+                let mut b = http_serve::streaming_body(&req).with_chunk_size(chunk);
+                for l in &levels {
+                    b = b.with_gzip_level(*l);
+                }
+                b.build()
+            };
         let mut s = format!("{}|{}|", id, resp.status().as_u16());
         let hs: Vec<String> = resp.headers().iter().map(|(k, v)| format!("{}={}", k.as_str(), hex(v.as_bytes()))).collect();
         s.push_str(&hs.join(","));
@@ -82,7 +89,7 @@ fn run_one(line: &str) -> String {
                     Some(b) => {
                         let mut data: Vec<u8> = Vec::new();
                         let (mut frames, mut shortest, mut term) = (0usize, usize::MAX, 'L');
-                        while frames < 20000 {
+                        while frames < 400000 {
                             match Pin::new(&mut *b).poll_frame(&mut cx) {
                                 Poll::Ready(Some(Ok(fr))) => {
                                     let d = fr.into_data().unwrap();
